@@ -458,6 +458,26 @@ func (m *Machine) doDispose(force bool) {
 	}
 	m.tracersMx.RUnlock()
 
+	// release everything, with the locks held
+	disposeHandlers := m.disposeLocked(force)
+
+	// run doDispose handlers, without the locks (they may call the machine)
+	// TODO timeouts?
+	for _, fn := range disposeHandlers {
+		fn(m.id, m.ctx)
+	}
+	// TODO disposeHandlers refs to other machines
+	// m.disposeHandlers = nil
+
+	// the end
+	m.cancel()
+	// fmt.Println("DISPOSED " + m.Id())
+	closeSafe(m.whenDisposed)
+}
+
+// disposeLocked is the part of [Machine.doDispose] which needs the locks. It
+// returns the registered dispose handlers.
+func (m *Machine) disposeLocked(force bool) []HandlerDispose {
 	// skip the locks when forcing
 	if !force {
 		m.activeStatesMx.Lock()
@@ -520,18 +540,7 @@ func (m *Machine) doDispose(force bool) {
 		m.queueProcessing.Store(false)
 	}
 
-	// run doDispose handlers
-	// TODO timeouts?
-	for _, fn := range m.disposeHandlers {
-		fn(m.id, m.ctx)
-	}
-	// TODO disposeHandlers refs to other machines
-	// m.disposeHandlers = nil
-
-	// the end
-	m.cancel()
-	// fmt.Println("DISPOSED " + m.Id())
-	closeSafe(m.whenDisposed)
+	return slices.Clone(m.disposeHandlers)
 }
 
 func (m *Machine) getHandlers(locked bool) []*handler {
